@@ -261,12 +261,26 @@ def run_program(job):
         stats["wf_checks"] = 0
         stats["roundtrip"] = {}
         seen_rt = set()
+        scale = H.load_scale()
+        stats["skip_limit"] = stats.get("skip_limit", 8) * scale
         for level in job["levels"]:
             cfg = Config(True, level, EVM)
             st = H.State(record=True, wf=True, keep_text=True)
             st.want_live = bool(job.get("want_live"))
             try:
-                out = H.compile_with(entry["src"], cfg, st, formats=("bytecode", "layout"))
+                out = None
+                for limit in (60 * scale, 240 * scale):
+                    try:
+                        out = H.compile_with(entry["src"], cfg, st, formats=("bytecode", "layout"), limit=limit)
+                        break
+                    except H.CompileTimeout:
+                        # wall-clock limit hit (loaded machine): not a finding; one retry with a larger limit, fresh state
+                        stats["compile_timeout"] = stats.get("compile_timeout", 0) + 1
+                        st = H.State(record=True, wf=True, keep_text=True)
+                        st.want_live = bool(job.get("want_live"))
+                if out is None:
+                    stats["compile_gave_up"] = stats.get("compile_gave_up", 0) + 1
+                    continue
             except Exception as e:  # noqa
                 res["findings"].append({"kind": "compile-failure", "level": level, "config": cfg.name,
                                         "error": f"{type(e).__name__}: {str(e)[:500]}"})
@@ -356,6 +370,10 @@ def run_program(job):
                     else:
                         res["findings"].append({"kind": "skip-behaviour", "level": level, "config": cfg.name, "skipped": p, "diff": d2,
                                                 "call": _call_desc(plan, d2.get("call"))})
+    except H.CompileTimeout:
+        # an alarm outside compile_with's own handling (should not happen): a lost measurement, never a finding
+        stats["compile_timeout"] = stats.get("compile_timeout", 0) + 1
+        stats["compile_gave_up"] = stats.get("compile_gave_up", 0) + 1
     except Exception as e:  # noqa
         res["errors"].append(f"{type(e).__name__}: {e}\n{traceback.format_exc()[-1500:]}")
     stats["secs"] = round(time.time() - t0, 2)
